@@ -24,11 +24,12 @@ META = {
             "queued buffers while the session is open, and the kernel holds a prefix after a close; nothing is written "
             "during the handshake; the drop-oldest policy is refuted (gap). The read loop hands over exactly the returned "
             "chunks. Tied to the code by scripted short writes / EAGAIN / errors / short reads on a real loopback session "
-            "and by concurrent framed senders under real kernel back-pressure.",
+            "and by concurrent framed senders under real kernel back-pressure, on plain TCP and on TLS sessions in both roles.",
     "design_ref": "DESIGN.md §7 C01",
-    "note": "partial: plain TCP is exercised end to end; for TLS the same engine code path runs above SSL_write/SSL_read, whose "
-            "stream semantics (and WANT_READ/WANT_WRITE retry contract) are trusted - the TLS wire is not driven by this "
-            "harness (C07 exercises TLS sessions). The order in which concurrent senders are accepted is the order of the "
+    "note": "partial: the scripted cut positions (short write at byte k, EAGAIN, error) are injected on plain TCP; TLS sessions (both "
+            "roles, real OpenSSL peer, senders started before the handshake completes, peer streaming back) are exercised under real "
+            "back-pressure only, where SSL_write/SSL_read decide the cuts - their stream semantics and WANT_READ/WANT_WRITE retry "
+            "contract are trusted. The order in which concurrent senders are accepted is the order of the "
             "engine's command queue (a mutex-protected deque), modelled as the order of the operation list. Trusted: Coq "
             "kernel; extraction + OCaml driver; harness/c01_impl.cpp (send/recv interposition, barrier connections).",
 }
@@ -119,7 +120,9 @@ def run(ctx):
             lines = corpus + [gen_case(rng) for _ in range(n)]
             stress = ["S 4 %d 40000" % (150 if not thorough else 2000), "S 1 %d 200000" % (60 if not thorough else 600),
                       "S 8 %d 3000" % (300 if not thorough else 4000)]
-            lines += stress
+            tls = ["L c 4 %d 30000" % (60 if not thorough else 600), "L s 4 %d 30000" % (60 if not thorough else 600),
+                   "L c 1 %d 150000" % (20 if not thorough else 200), "L s 8 %d 2000" % (120 if not thorough else 1500)]
+            lines += stress + tls
             li, lm, _ = vlib.run_pair(ctx, impl_exe, model_exe, lines, "c01h", timeout=1800)
             nontrivial = 0
             disagree = 0
@@ -127,6 +130,13 @@ def run(ctx):
             for line, ri, rm in zip(lines, li, lm):
                 if ri.startswith("CRASH") or ri.startswith("EXC") or "TIMEOUT" in ri or ri.endswith("FAIL"):
                     v.property_failure("impl-crashes", "TcpEngine crashed / hung (%s)" % ri[-200:], line, ri[-600:])
+                    continue
+                if line.startswith("L "):
+                    if ri != "L ok":
+                        v.property_failure("stream-corrupted-under-backpressure", "TLS session (engine as %s), concurrent framed senders started before "
+                                           "the handshake completed, peer streaming back: %s" % ("client" if line.split()[1] == "c" else "server", ri), line, ri)
+                    else:
+                        nontrivial += 1
                     continue
                 if line.startswith("S "):
                     if ri != "S ok":
